@@ -260,6 +260,11 @@ func (g *Gen) callMods(c *ssa.CallCommon, ms *ModSet) {
 // resolveName finds the SSA value bound to a source-level variable name at the start of block b
 // (after its phis).
 func (f *Frame) resolveName(name string, b *ssa.BasicBlock) (nameDef, bool) {
+	return f.resolveNameAt(name, b, -1)
+}
+
+// resolveNameAt: like resolveName, but at instruction index upTo of block b (definitions earlier in b count).
+func (f *Frame) resolveNameAt(name string, b *ssa.BasicBlock, upTo int) (nameDef, bool) {
 	var best *nameDef
 	cands := f.names[name]
 	for i := range cands {
@@ -269,7 +274,7 @@ func (f *Frame) resolveName(name string, b *ssa.BasicBlock) (nameDef, bool) {
 			ok = false
 		} else if c.block == b {
 			_, isPhi := c.val.(*ssa.Phi)
-			ok = isPhi && c.val.(*ssa.Phi).Block() == b
+			ok = (isPhi && c.val.(*ssa.Phi).Block() == b) || c.idx < upTo
 		} else if c.block.Dominates(b) {
 			ok = true
 		}
@@ -588,9 +593,16 @@ func (f *Frame) closeLoop(lp *Loop, from *ssa.BasicBlock) {
 		}
 	}
 	env := f.envAt(b, f.heapOut[from], over)
+	// back edges are numbered by the block order of their sources (names must not depend on block indices)
+	beIdx := 0
+	for _, q := range lp.Back {
+		if q.Index < from.Index {
+			beIdx++
+		}
+	}
 	for i, c := range f.loopClauses(lp, "invariant") {
 		goal := env.trBool(c.E)
-		g.addOblig(&Oblig{Name: f.obName(fmt.Sprintf("loop%d.inv-preserved@b%d", lp.Ordinal, from.Index), c, i), Kind: "invariant-preserved",
+		g.addOblig(&Oblig{Name: f.obName(fmt.Sprintf("loop%d.inv-preserved.e%d", lp.Ordinal, beIdx), c, i), Kind: "invariant-preserved",
 			Goal: implies(cond, goal), Pos: f.pos(lastPos(from)), Text: c.Text})
 	}
 	for i, c := range f.loopClauses(lp, "decreases") {
@@ -602,7 +614,7 @@ func (f *Frame) closeLoop(lp *Loop, from *ssa.BasicBlock) {
 		} else {
 			goal = and(app(">=", ov.S, "0"), app("<", nv.S, ov.S))
 		}
-		g.addOblig(&Oblig{Name: f.obName(fmt.Sprintf("loop%d.decreases@b%d", lp.Ordinal, from.Index), c, i), Kind: "decreases",
+		g.addOblig(&Oblig{Name: f.obName(fmt.Sprintf("loop%d.decreases.e%d", lp.Ordinal, beIdx), c, i), Kind: "decreases",
 			Goal: implies(cond, goal), Pos: f.pos(lastPos(from)), Text: c.Text})
 	}
 }
